@@ -1,6 +1,6 @@
 """Shared runner for history-conformance properties (scenario -> real execution with hooks ->
 recorded history -> replay through the extracted LTS)."""
-import os, json, random, time
+import os, json, random, time, re
 from concurrent.futures import ThreadPoolExecutor
 import vlib
 
@@ -55,7 +55,7 @@ def history_excerpt(path, around=None, n=40):
 
 
 def history_stage(rep, proof_ok, sc, lib, prop, drv, harness_src, gen, tier, seed, replay=None, rule="",
-                  nontrivial=None, search_rounds=2, proof_log="", prop_file=""):
+                  nontrivial=None, search_rounds=2, proof_log="", prop_file="", known_patterns=None):
     """runs the scenarios of one property on the scratch build and files violations in rep; returns coverage dict"""
     okd, drv_exe, derr = vlib.build_driver(drv)
     if not okd:
@@ -90,6 +90,24 @@ def history_stage(rep, proof_ok, sc, lib, prop, drv, harness_src, gen, tier, see
         by.setdefault(r["status"], []).append(r)
     monfail = by.get("MONFAIL", []) + by.get("CRASH", [])
     mism = by.get("MISMATCH", []) + by.get("DRIVER", [])
+    # known findings: a scenario carrying the finding's marker whose ONLY monitor failure is the finding's pattern
+    known_hits = {}
+    if known_patterns:
+        listed = dict(vlib.known_findings(prop))
+        keep = []
+        for r in monfail:
+            hit = None
+            for key, (marker, rx) in known_patterns.items():
+                fails = r["mon_line"].split()[1:] if r["mon_line"].startswith("MONFAIL") else ["?"]
+                if marker in r["scenario"] and fails and all(re.match(rx, f) for f in fails) and r["model_line"].startswith("OK"):
+                    hit = key
+            if hit and hit in listed:
+                known_hits.setdefault(hit, []).append(r)
+            else:
+                keep.append(r)
+        monfail = keep
+        for key, rs in known_hits.items():
+            rep.known.append("key=%s %s (%d scenarios this run: %s)" % (key, listed[key], len(rs), rs[0]["mon_line"][:160]))
     searched = 0
     if (mism or not proof_ok) and not monfail and not replay:
         kinds = set()
@@ -112,7 +130,7 @@ def history_stage(rep, proof_ok, sc, lib, prop, drv, harness_src, gen, tier, see
            "events_replayed": nev, "distinct_nontrivial": len(set(s for s in scenarios if (nontrivial(s) if nontrivial else True))),
            "rule": rule, "samples": scenarios[:2], "generator_stats": stats,
            "history_mismatches": len(mism), "monitor_failures": len(monfail), "search_runs": searched,
-           "disagreements_checked": len(scenarios)}
+           "disagreements_checked": len(scenarios), "known_finding_scenarios": sum(len(v) for v in known_hits.values())}
     if monfail:
         r = monfail[0]
         rep.violation("monitor-%d.json" % seed,
@@ -138,7 +156,8 @@ def history_stage(rep, proof_ok, sc, lib, prop, drv, harness_src, gen, tier, see
     return cov
 
 
-def run_sched_property(prop, prop_files, targets, name_re, gen, tier, seed, replay=None, rule="", extra_assumptions=()):
+def run_sched_property(prop, prop_files, targets, name_re, gen, tier, seed, replay=None, rule="", extra_assumptions=(),
+                       known_patterns=None):
     """properties decided on the scheduler LTS (Conc/Sched.v): theorems from the shared Properties_Sched*.v files
     (filtered by name) + history conformance of harness/h_sched.c scenarios"""
     rep = vlib.Report(prop, tier, seed)
@@ -159,7 +178,7 @@ def run_sched_property(prop, prop_files, targets, name_re, gen, tier, seed, repl
             rep.violation("repo-build.txt", "the library does not compile with -D%s:\n%s" % (vlib.GUARD, lerr), found_input=False)
             return rep.finish(proof, {"evaluations": 0})
         cov = history_stage(rep, proof["ok"], sc, lib, prop, "sched", "h_sched.c", gen, tier, seed, replay=replay, rule=rule,
-                            proof_log=proof["log"], prop_file=",".join(prop_files))
+                            proof_log=proof["log"], prop_file=",".join(prop_files), known_patterns=known_patterns)
     return rep.finish(proof, cov)
 
 
